@@ -1,0 +1,9 @@
+//go:build verif
+
+package analysis
+
+// Hooks for the verification harness in /verif (build tag "verif").
+// They only expose unexported pure functions; nothing is rewritten.
+
+// VerifCommonPrefix exposes commonPrefix.
+func VerifCommonPrefix(paths []string) string { return commonPrefix(paths) }
